@@ -2,6 +2,7 @@ package main
 
 import (
 	"fmt"
+	"go/ast"
 	"go/constant"
 	"go/token"
 	"go/types"
@@ -446,3 +447,308 @@ func registrationStores(c *Ctx, p *Prog, m *Model) {
 }
 
 var _ = token.ADD
+
+// ---- options are applied in the order given (C10 R10.3, C11 R11.4) -------------------------------------------------
+
+func optionsInOrder(c *Ctx, p *Prog, rule string) {
+	r := c.R
+	ne := p.Func(p.Slog, "newentry")
+	if ne == nil {
+		r.Unk(rule, "newentry:options", "-", "newentry not found")
+		return
+	}
+	opt := p.NamedType(p.Slog, "Opt")
+	n := 0
+	var probs []string
+	for _, b := range ne.Blocks {
+		for _, in := range b.Instrs {
+			cs, ok := in.(ssa.CallInstruction)
+			if !ok || cs.Common().IsInvoke() || cs.Common().StaticCallee() != nil {
+				continue
+			}
+			if _, isB := cs.Common().Value.(*ssa.Builtin); isB {
+				continue
+			}
+			// a call of a function VALUE of type Opt
+			t := cs.Common().Value.Type()
+			if opt == nil || !(types.Identical(t, opt) || types.Identical(t.Underlying(), opt.Underlying())) {
+				continue
+			}
+			n++
+			switch in.(type) {
+			case *ssa.Defer:
+				probs = append(probs, "an option is applied by a deferred call at "+p.Pos(instrPos(in))+": deferred calls run in reverse, so the FIRST of several contradicting options wins instead of the last")
+			case *ssa.Go:
+				probs = append(probs, "an option is applied on another goroutine at "+p.Pos(instrPos(in)))
+			default:
+				if !inLoop(b) {
+					probs = append(probs, "an option is applied outside the loop over the options at "+p.Pos(instrPos(in)))
+				}
+			}
+		}
+	}
+	if n == 0 {
+		probs = append(probs, "newentry applies no option")
+	}
+	r.Check(len(probs) == 0, rule, "newentry:options", p.FuncPos(ne), "each option is applied by a direct call, in the order given, to the logger under construction", strings.Join(probs, "; "))
+}
+
+// ---- "under go test" means is.InTesting() and nothing else (C12 R12.7) ---------------------------------------------
+
+func testingPredicate(c *Ctx, p *Prog) {
+	r := c.R
+	e, pk, err := p.varInit(p.Slog, "inTesting")
+	if err != nil {
+		r.Unk("R12.7", "inTesting", "-", "%v", err)
+		return
+	}
+	ok := false
+	if call, isCall := e.(*ast.CallExpr); isCall && len(call.Args) == 0 {
+		if sel, isSel := call.Fun.(*ast.SelectorExpr); isSel && sel.Sel.Name == "InTesting" {
+			if obj, has := pk.TypesInfo.Uses[sel.Sel]; has && obj.Pkg() != nil && strings.HasSuffix(obj.Pkg().Path(), "hedzr/is") {
+				ok = true
+			}
+		}
+	}
+	r.Check(ok, "R12.7", "inTesting:init", p.Pos(e.Pos()), "inTesting is is.InTesting() itself", "the 'under go test' predicate of the termination rule is no longer is.InTesting() alone: some go test runs (or production runs) are classified differently, so Panic/Fatal terminate (or do not) where the documented rule says otherwise")
+	for _, fn := range p.RepoFuncs() {
+		if strings.HasPrefix(nm(fn), "init") {
+			continue
+		}
+		for _, gs := range globalStores(fn) {
+			if nm(gs.G) == "inTesting" {
+				r.Bad("R12.7", "inTesting:store:"+shortName(fn), p.Pos(instrPos(gs.Instr)), "the 'under go test' predicate is reassigned at run time by %s", shortName(fn))
+			}
+		}
+	}
+}
+
+// ---- Handle: a native logger always gets the record through WriteThru (C15 R15.3) --------------------------------------
+
+func handleDecision(c *Ctx, p *Prog, m *Model) {
+	r := c.R
+	hd := p.Method(p.Slog, "handler4LogSlog", "Handle")
+	if hd == nil {
+		r.Unk("R15.3", "Handle:route", "-", "Handle not found")
+		return
+	}
+	var probs []string
+	for _, aware := range []bool{true, false} {
+		for _, skip := range []bool{true, false} {
+			a := map[string]bool{"aware": aware, "has-skip": skip}
+			t := walkDecision(hd.Blocks[0], a, func(cond ssa.Value) (string, bool) {
+				if ex, ok := cond.(*ssa.Extract); ok && ex.Index == 1 {
+					if ta, ok := ex.Tuple.(*ssa.TypeAssert); ok {
+						if _, isL := isFieldLoadOf(ta.X, "handler4LogSlog", "Logger"); isL {
+							if typeName(ta.AssertedType) == "LogSlogAware" {
+								return "aware", true
+							}
+							return "has-skip", true
+						}
+					}
+				}
+				return "", false
+			}, nil)
+			if t.Kind != "return" {
+				probs = append(probs, "which way a record takes depends on a condition other than the capabilities of the underlying logger ("+t.Kind+"): some records of a native logger take the fallback path, which stamps them with the current time and its own caller")
+				continue
+			}
+			thru, attrs := 0, 0
+			for _, cs := range t.Calls {
+				switch invokeName(cs) {
+				case "WriteThru":
+					thru++
+				case "LogAttrs":
+					attrs++
+				}
+			}
+			if aware && (thru != 1 || attrs != 0) {
+				probs = append(probs, fmt.Sprintf("a native logger is handed the record by %d WriteThru / %d LogAttrs calls (expected exactly one WriteThru with the record's own time)", thru, attrs))
+			}
+			if !aware && thru+attrs != 1 {
+				probs = append(probs, fmt.Sprintf("a foreign logger is handed the record %d times", thru+attrs))
+			}
+		}
+	}
+	r.Check(len(probs) == 0, "R15.3", "Handle:route", p.FuncPos(hd), "native loggers always take WriteThru (record's own time), others LogAttrs; exactly one emission", strings.Join(dedupStr(probs), "; "))
+}
+
+// ---- the JSON escaper loses no byte (C04 R04.8) -------------------------------------------------------------------------
+
+// The escaper copies runs of unescaped bytes lazily: `start` marks the beginning of the pending run. Whenever start is
+// moved forward past an escaped character, the pending run val[start:i] must have been written first (directly under
+// `if start < i`, or by a helper that is given val and start), on every path. Otherwise bytes of the value disappear
+// while the record stays perfectly valid JSON.
+func escaperNoLoss(c *Ctx, p *Prog, rule string) {
+	r := c.R
+	esc := p.Method(p.Slog, "PrintCtx", "appendEscapedJSONString")
+	if esc == nil || len(esc.Params) < 2 {
+		r.Unk(rule, "escaper:no-loss", "-", "JSON escaper not found")
+		return
+	}
+	val := esc.Params[1]
+	// the pending-run marker: a loop phi of type int that is the Low bound of a slice of val
+	var start *ssa.Phi
+	for _, b := range esc.Blocks {
+		for _, in := range b.Instrs {
+			if sl, ok := in.(*ssa.Slice); ok && sl.X == ssa.Value(val) && sl.Low != nil && sl.High != nil {
+				if ph, ok := sl.Low.(*ssa.Phi); ok && inLoop(ph.Block()) {
+					start = ph
+				}
+			}
+			if cs, ok := in.(ssa.CallInstruction); ok && start == nil {
+				// helper form: flush(val, start, i)
+				hasVal := false
+				for _, a := range cs.Common().Args {
+					if a == ssa.Value(val) {
+						hasVal = true
+					}
+				}
+				if hasVal {
+					for _, a := range cs.Common().Args {
+						if ph, ok := a.(*ssa.Phi); ok && inLoop(ph.Block()) && startsAt(ph, 0) {
+							start = ph
+							break
+						}
+					}
+				}
+			}
+		}
+	}
+	if start == nil {
+		r.Unk(rule, "escaper:no-loss", p.FuncPos(esc), "the pending-run marker of the escaper was not recognised")
+		return
+	}
+	flushes := func(b *ssa.BasicBlock) bool {
+		for _, in := range b.Instrs {
+			cs, ok := in.(ssa.CallInstruction)
+			if !ok {
+				continue
+			}
+			hasVal, hasStart := false, false
+			for _, a := range cs.Common().Args {
+				if sl, ok := a.(*ssa.Slice); ok && sl.X == ssa.Value(val) && sl.Low == ssa.Value(start) {
+					return true
+				}
+				if a == ssa.Value(val) {
+					hasVal = true
+				}
+				if a == ssa.Value(start) {
+					hasStart = true
+				}
+			}
+			if hasVal && hasStart {
+				return true
+			}
+		}
+		return false
+	}
+	var flushDoms []*ssa.BasicBlock // blocks after which the pending run has been written (or was empty)
+	for _, b := range esc.Blocks {
+		if flushes(b) {
+			flushDoms = append(flushDoms, b)
+			// the test `start < i` guarding it
+			for _, pr := range b.Preds {
+				if iff := ifOf(pr); iff != nil && pr.Succs[0] == b {
+					if bo, ok := iff.Cond.(*ssa.BinOp); ok && bo.Op == token.LSS && bo.X == ssa.Value(start) {
+						flushDoms = append(flushDoms, pr)
+					}
+				}
+			}
+		}
+	}
+	var probs []string
+	n := 0
+	for i, e := range start.Edges {
+		if e == ssa.Value(start) {
+			continue
+		}
+		if z, ok := constInt(e); ok && z == 0 {
+			continue
+		}
+		n++
+		pred := start.Block().Preds[i]
+		ok := false
+		for _, fd := range flushDoms {
+			if fd.Dominates(pred) {
+				ok = true
+			}
+		}
+		if !ok {
+			probs = append(probs, "the pending run is dropped without having been written on the path through "+p.Pos(instrPos(pred.Instrs[len(pred.Instrs)-1])))
+		}
+	}
+	sort.Strings(probs)
+	if n == 0 {
+		r.Unk(rule, "escaper:no-loss", p.FuncPos(esc), "no advance of the pending-run marker found")
+		return
+	}
+	r.Check(len(probs) == 0, rule, "escaper:no-loss", p.FuncPos(esc), fmt.Sprintf("each of the %d places that skip an escaped character writes the pending run first", n), strings.Join(probs, "; ")+": bytes of the string disappear from the record (which stays valid JSON)")
+}
+
+// ---- padding is not cut from a fixed-size source (C06 R06.3) -----------------------------------------------------------------
+
+func padUnbounded(c *Ctx, p *Prog) {
+	r := c.R
+	te := newTermEval(p)
+	for _, name := range []string{"rightPad", "leftPad", "padFunc", "pad"} {
+		fn := p.Method(p.Slog, "colorizeToolS", name)
+		if fn == nil {
+			continue
+		}
+		bad := ""
+		for _, b := range fn.Blocks {
+			ret, ok := b.Instrs[len(b.Instrs)-1].(*ssa.Return)
+			if !ok || len(ret.Results) == 0 {
+				continue
+			}
+			t := te.eval(ret.Results[0], nil)
+			if t.contains(func(x *Term) bool {
+				if x.Op != "slice" || len(x.Args) == 0 {
+					return false
+				}
+				src := x.Args[0]
+				return src.Op == "const" || src.Op == "global"
+			}) {
+				bad = t.String()
+			}
+		}
+		r.Check(bad == "", "R06.3", "pad-source:"+name, p.FuncPos(fn), "the padding is not cut from a fixed-size constant", "the padding is cut from a fixed-size source ("+bad+"): a configured width beyond its size is silently not honoured")
+	}
+}
+
+// ---- a registration stores the caller's own tags only (C17 R17.6) ----------------------------------------------------------------
+
+func tagStoresFromRegistration(c *Ctx, p *Prog) {
+	r := c.R
+	rl := p.Func(p.Slog, "RegisterLevel")
+	tbl := p.Global(p.Slog, "shortTagMap")
+	if rl == nil || tbl == nil {
+		r.Unk("R17.6", "register:tag-source", "-", "RegisterLevel/shortTagMap not found")
+		return
+	}
+	te := newTermEval(p)
+	n := 0
+	var probs []string
+	for _, ef := range te.effectsOf(rl, privateHelper(p)) {
+		if ef.Kind != "mapupdate" {
+			continue
+		}
+		// an update of shortTagMap[i] (the inner map)
+		isTbl := ef.Base != nil && ef.Base.contains(func(t *Term) bool { return t.Op == "global" && t.Name == "shortTagMap" })
+		if !isTbl {
+			continue
+		}
+		n++
+		for _, alt := range ef.Val.alts() {
+			if !(alt.Op == "index" && alt.Args[0].contains(func(t *Term) bool { return t.Op == "field" && t.Name == "shortTags" })) {
+				probs = append(probs, "a tag computed by the library ("+alt.String()+") is stored for a width: nothing establishes that it has that width (the tag printed for a registered level is then narrower or wider than configured)")
+			}
+		}
+	}
+	if n == 0 {
+		r.Unk("R17.6", "register:tag-source", p.FuncPos(rl), "RegisterLevel stores no tag")
+		return
+	}
+	r.Check(len(probs) == 0, "R17.6", "register:tag-source", p.FuncPos(rl), "only the tags given with the registration are stored, each under its own width index", strings.Join(dedupStr(probs), "; "))
+}
